@@ -8,7 +8,9 @@ namespace GoLevel.Dur
 theorem Inv.post_step {cfg : Cfg} {s : St} {d d' : Disk} (h : Inv cfg s d) {j : Job} (hj : s.job = some j)
     (hpost : j.pc.post = true) (pc' : JPc) (hp' : pc'.post = true)
     (hjr : d'.journals = d.journals) (hc : d'.current = d.current) (hcm : curManifest d' = curManifest d)
-    (ht : ∀ v, lastView cfg d = some v → ∀ t ∈ v.live, lookup d'.tables t = lookup d.tables t)
+    (ht : ∀ mf, curManifest d = some mf → ∀ k ≤ mf.unsynced.length, ∀ v, viewAt cfg mf k = some v →
+      ∀ t ∈ v.live, lookup d'.tables t = lookup d.tables t)
+    (het : j.edit = none → d'.tables = d.tables)
     (htn : d'.tables.Pairwise (fun p q => p.1 ≠ q.1)) (hmn : d'.manifests.Pairwise (fun p q => p.1 ≠ q.1))
     (hrm : ∀ v, lastView cfg d = some v →
       RemovalsOK { s with job := some { j with pc := pc' } } d' { j with pc := pc' } v) :
@@ -16,8 +18,8 @@ theorem Inv.post_step {cfg : Cfg} {s : St} {d d' : Disk} (h : Inv cfg s d) {j : 
   have hok := h.job
   rw [hj] at hok
   have hok : JobOK cfg s d j := hok
-  have hopen := h.post_open hj hpost
-  obtain ⟨mf, v, hcur, hun, hlv, hv0, hmir⟩ := hok.post_settled hpost hopen
+  obtain ⟨mf, v0, v, hparts, hlv, hvl, _⟩ := h.disk.last
+  have hcur := hparts.cur
   have hnr : ∀ m, j.pc ≠ .rotRemove m := by intro m hm; rw [hm] at hpost; cases hpost
   have hnr' : ∀ m, pc' ≠ .rotRemove m := by intro m hm; rw [hm] at hp'; cases hp'
   have hnb : pc'.beforeCommit = false := by cases pc' <;> simp_all [JPc.post, JPc.beforeCommit]
@@ -28,15 +30,10 @@ theorem Inv.post_step {cfg : Cfg} {s : St} {d d' : Disk} (h : Inv cfg s d) {j : 
       have : pc'.beforeCommit = true := hb'
       rw [hnb] at this; cases this)
     (fun j0 h0 => by rw [hj] at h0; cases h0; exact ⟨rfl, fun _ _ => hnb⟩)
+    (fun _ => h.post_limbo hj hpost pc' hp' het)
   have hlv' : lastView cfg d' = lastView cfg d := by unfold lastView; rw [hcm]
   constructor
-  · apply h.disk.frame hcm hjr _ htn hmn (fun _ hx => hx) (fun _ hx => hx)
-    intro mf1 hc1 k hk v1 hv1 t ht1
-    rw [hcur] at hc1; cases hc1
-    have : k = 0 := by simpa [hun] using hk
-    subst this
-    rw [hv0] at hv1; cases hv1
-    exact ht v hlv t ht1
+  · exact h.disk.frame hcm hjr ht htn hmn (fun _ hx => hx) (fun _ hx => hx)
   · exact h.mm.of_same hcm hc
   · intro _
     exact hb.of_same hcm (h.seqHi_step hj rfl rfl rfl rfl (fun hb' => by
@@ -62,7 +59,9 @@ theorem Inv.post_step {cfg : Cfg} {s : St} {d d' : Disk} (h : Inv cfg s d) {j : 
             · rw [hpt.1] at h3; cases h3)
     · rw [hlv', hlv]
       exact hrm v hlv
-    · exact fun v hv o _ hl => ht v hv o.1 hl
+    · intro v' hv' o _ hl
+      rw [hlv] at hv'; cases hv'
+      exact ht mf hcur _ (Nat.le_refl _) v hvl o.1 hl
 
 theorem inv_job_rmT_cons {cfg : Cfg} {s : St} {d : Disk} (h : Inv cfg s d) {j : Job}
     (hj : s.job = some j) {n : Nat} {rest : List Nat} (hpc : j.pc = .rmT (n :: rest)) {rot : Bool}
@@ -74,16 +73,30 @@ theorem inv_job_rmT_cons {cfg : Cfg} {s : St} {d : Disk} (h : Inv cfg s d) {j : 
   simp only [Option.some.injEq, Prod.mk.injEq] at hs
   obtain ⟨rfl, rfl⟩ := hs
   have hrm := hok.removals
-  apply h.post_step (d' := { d with tables := d.tables.erase n }) hj (by rw [hpc]; rfl) (.rmT rest) rfl rfl rfl rfl
-  · intro v hv t ht
-    rw [hv] at hrm
-    simp only [Holds] at hrm
-    unfold RemovalsOK at hrm
-    rw [hpc] at hrm
-    simp only at hrm
-    have := hrm n List.mem_cons_self
+  have hpost : j.pc.post = true := by rw [hpc]; rfl
+  obtain ⟨mf, v0, vl, hparts, hlvl, _⟩ := h.disk.last
+  have hrm0 := hrm
+  rw [hlvl] at hrm0
+  simp only [Holds] at hrm0
+  unfold RemovalsOK at hrm0
+  rw [hpc] at hrm0
+  simp only at hrm0
+  have hsome : s.limbo = none ∧ j.edit ≠ none := by
+    rcases h.post_cases hj hpost with hx | ⟨he, _⟩
+    · exact hx
+    · exact nomatch hrm0.2 he
+  apply h.post_step (d' := { d with tables := d.tables.erase n }) hj hpost (.rmT rest) rfl rfl rfl rfl
+  · intro mf1 hc1 k hk v1 hv1 t ht
+    obtain ⟨mf', v', hcur', hun, hlv', hv0, _⟩ := hok.post_settled hpost (h.post_open hj hpost) hsome.1
+    rw [hcur'] at hc1; cases hc1
+    have : k = 0 := by simpa [hun] using hk
+    subst this
+    rw [hv0] at hv1; cases hv1
+    rw [hlvl] at hlv'; cases hlv'
+    have := hrm0.1 n List.mem_cons_self
     show lookup (d.tables.erase n) t = _
     rw [lookup_erase, if_neg (fun (e : t = n) => this (by rw [← e]; exact ht))]
+  · exact fun he => absurd he hsome.2
   · exact pairwise_erase _ h.disk.tnodup
   · exact h.disk.mnodup
   · intro v hv
@@ -92,7 +105,7 @@ theorem inv_job_rmT_cons {cfg : Cfg} {s : St} {d : Disk} (h : Inv cfg s d) {j : 
     unfold RemovalsOK at hrm ⊢
     rw [hpc] at hrm
     simp only at hrm ⊢
-    exact fun t ht => hrm t (List.mem_cons_of_mem _ ht)
+    exact ⟨fun t ht => hrm.1 t (List.mem_cons_of_mem _ ht), fun he => absurd he hsome.2⟩
 
 theorem inv_job_rmT_nil {cfg : Cfg} {s : St} {d : Disk} (h : Inv cfg s d) {j : Job}
     (hj : s.job = some j) (hpc : j.pc = .rmT []) {rot : Bool}
@@ -101,9 +114,17 @@ theorem inv_job_rmT_nil {cfg : Cfg} {s : St} {d : Disk} (h : Inv cfg s d) {j : J
   simp only [Option.some.injEq, Prod.mk.injEq] at hs
   obtain ⟨rfl, rfl⟩ := hs
   have hnr : ∀ m, j.pc ≠ .rotRemove m := by rw [hpc]; intro m hm; cases hm
-  have hfd := (h.mfd hj).fd hj hnr
-  apply h.post_step (d' := d) hj (by rw [hpc]; rfl) _ (by split <;> rfl) rfl rfl rfl (fun _ _ _ _ => rfl)
-    h.disk.tnodup h.disk.mnodup
+  have hok := h.job
+  rw [hj] at hok
+  have hok : JobOK cfg s d j := hok
+  have hfd : j.kind = .recovFinal → s.manifestFd = d.current := by
+    intro hk
+    have hkind := hok.kind
+    unfold JobKindOK at hkind
+    rw [hk] at hkind
+    exact (h.mfd hj).fd hj hnr (h.limbo_none_of_recovering (by rw [hkind.1]; decide))
+  apply h.post_step (d' := d) hj (by rw [hpc]; rfl) _ (by split <;> rfl) rfl rfl rfl (fun _ _ _ _ _ _ _ _ => rfl)
+    (fun _ => rfl) h.disk.tnodup h.disk.mnodup
   intro v _
   unfold RemovalsOK
   split
@@ -116,7 +137,8 @@ theorem inv_job_rmT_nil {cfg : Cfg} {s : St} {d : Disk} (h : Inv cfg s d) {j : J
       intro m hm
       simp only [List.mem_filter, decide_eq_true_eq] at hm
       intro hc
-      rw [hfd, ← hc] at hm
+      rename_i hkf
+      rw [hfd hkf, ← hc] at hm
       simp at hm
     · cases heq
   · trivial
@@ -141,7 +163,7 @@ theorem inv_job_rmM_cons {cfg : Cfg} {s : St} {d : Disk} (h : Inv cfg s d) {j : 
     intro c hc
     rw [lookup_erase, if_neg (fun e => hrm n List.mem_cons_self (by rw [hc, e]))]
   apply h.post_step (d' := { d with manifests := d.manifests.erase n }) hj (by rw [hpc]; rfl) (.rmM rest) rfl rfl rfl
-    (curManifest_other hms) (fun _ _ _ _ => rfl) h.disk.tnodup (pairwise_erase _ h.disk.mnodup)
+    (curManifest_other hms) (fun _ _ _ _ _ _ _ _ => rfl) (fun _ => rfl) h.disk.tnodup (pairwise_erase _ h.disk.mnodup)
   intro v' _
   unfold RemovalsOK
   simp only
@@ -153,8 +175,8 @@ theorem inv_job_rmM_nil {cfg : Cfg} {s : St} {d : Disk} (h : Inv cfg s d) {j : J
   rw [stepJob_rmM_nil hpc] at hs
   simp only [Option.some.injEq, Prod.mk.injEq] at hs
   obtain ⟨rfl, rfl⟩ := hs
-  apply h.post_step (d' := d) hj (by rw [hpc]; rfl) .done rfl rfl rfl rfl (fun _ _ _ _ => rfl)
-    h.disk.tnodup h.disk.mnodup
+  apply h.post_step (d' := d) hj (by rw [hpc]; rfl) .done rfl rfl rfl rfl (fun _ _ _ _ _ _ _ _ => rfl)
+    (fun _ => rfl) h.disk.tnodup h.disk.mnodup
   intro v _
   unfold RemovalsOK
   trivial
